@@ -357,6 +357,23 @@ func (w *World) exportImportCheck() {
 			w.Probe("exported:inits")
 		}
 	}
+	var fg fttypes.GenesisState
+	if encCfg.Marshaler.UnmarshalJSON(gs[fttypes.ModuleName], &fg) == nil {
+		if len(fg.FilesList) > 0 {
+			w.Probe("exported:filetree_entries")
+		}
+		if len(fg.PubKeyList) > 0 {
+			w.Probe("exported:pubkeys")
+		}
+	}
+	var og oracletypes.GenesisState
+	if encCfg.Marshaler.UnmarshalJSON(gs[oracletypes.ModuleName], &og) == nil && len(og.FeedList) > 0 {
+		w.Probe("exported:feeds")
+	}
+	var ng notiftypes.GenesisState
+	if encCfg.Marshaler.UnmarshalJSON(gs[notiftypes.ModuleName], &ng) == nil && len(ng.Notifications) > 0 {
+		w.Probe("exported:notifications")
+	}
 	// fresh chain from the export
 	restored := newNode("X", dbm.NewMemDB(), "", 0)
 	defer os.RemoveAll(restored.home)
@@ -484,7 +501,7 @@ func init() {
 		NewOracle: func() Oracle { return &oracleC19{} },
 		Runs:      map[string]int{"quick": 100, "thorough": 2500},
 		Required: []string{"exported:files", "exported:files_with_provers", "exported:providers", "exported:payment_infos", "exported:collateral", "exported:attest_forms", "exported:report_forms", "exported:gauges",
-			"exported:names", "exported:bids", "exported:listings", "exported:inits"},
+			"exported:names", "exported:bids", "exported:listings", "exported:inits", "exported:filetree_entries", "exported:pubkeys", "exported:feeds", "exported:notifications"},
 		Rule: "all-modules histories (storage mixed profile + name service + file tree + notifications + oracle feeds + pubkeys) with 2-4 export points per run after Commit; at each: export, validate the six custom sections, InitChain a fresh app from it, compare every record query, every KV pair of the six stores and the re-exported genesis; " +
 			"non-trivial = an export was imported into a fresh chain and compared; distinct = distinct (message kind, outcome) sequences",
 	})
